@@ -299,5 +299,116 @@ Proof.
       * left. apply pawn_to_in in Hm. destruct Hm as [_ [Hm _]]. congruence.
       * right. split; [exact HR|]. exists d2. cbn [mv dst] in Hd. auto.
     + right. destruct Hm as [[En Hm]|[En [Hx' ->]]].
-      * apply pawn_to_in in Hm. destruct Hm as [_ [Hm _]]. rewrite Hm in Hd. subst x. auto.
-Show. Abort.
+      * apply pawn_to_in in Hm. destruct Hm as [_ [Hm _]]. assert (Hxd : x = d) by congruence. rewrite <- Hxd. auto.
+      * exfalso. destruct (filter_pawn p s (mv s x) Hat eq_refl) as [_ Hf].
+        rewrite Hf in He. cbn [mv dst] in He.
+        destruct (caps_facts c s x Hs Hx) as [_ [Hfile _]].
+        rewrite Hfile, (Hep x Hx') in He. discriminate He.
+  - intros [[d1 [E1 [O1 H]]]|[Hx En]].
+    + destruct (Hstep d1 E1) as [_ [Hf1 [_ Hstep2]]].
+      destruct H as [->|[HR [d2 [E2 [O2 ->]]]]].
+      * destruct (pawn_to_ex c s d1) as [m Hm]. exists m.
+        split; [apply pawn_moves_in; left; exists d1; auto|].
+        apply pawn_to_in in Hm. destruct Hm as [Hsrc [Hdst _]].
+        split; [exact Hdst|]. destruct (filter_pawn p s m Hat Hsrc) as [Hc He].
+        split; [|exact Hc]. rewrite He, Hdst, Hf1, N.eqb_refl. reflexivity.
+      * exists (mv s d2).
+        split; [apply pawn_moves_in; left; exists d1; split; [exact E1|]; split; [exact O1|];
+                right; split; [exact HR|]; exists d2; auto|].
+        split; [reflexivity|]. destruct (filter_pawn p s (mv s d2) Hat eq_refl) as [Hc He].
+        split; [|exact Hc]. rewrite He. cbn [mv dst].
+        destruct (Hstep2 d2 E2) as [_ Hf2]. rewrite Hf2, N.eqb_refl. reflexivity.
+    + destruct (pawn_to_ex c s d) as [m Hm]. exists m.
+      split; [apply pawn_moves_in; right; exists d; auto|].
+      apply pawn_to_in in Hm. destruct Hm as [Hsrc [Hdst _]].
+      split; [exact Hdst|]. destruct (filter_pawn p s m Hat Hsrc) as [Hc He].
+      split; [|exact Hc]. rewrite He, Hdst.
+      rewrite enemy_occ_own in En. apply andb_prop in En. destruct En as [En _].
+      rewrite En. apply andb_false_r.
+Qed.
+
+(** ** 4. promotions *)
+Lemma pawn_moves_promo p c s m : s < 64 ->
+  (forall e, ep p = Some e -> rank_of e = sixth_rank c) ->
+  In m (pawn_moves p c s) -> src m = s /\ is_promo m = (sq_rank s =? seventh_rk c).
+Proof.
+  intros Hs Hep Hm. apply pawn_moves_in in Hm.
+  destruct (push_facts c s Hs) as [_ [Hstep [Hdbl _]]].
+  destruct Hm as [[d1 [E1 [O1 Hm]]]|[x [Hx Hm]]].
+  - destruct (Hstep d1 E1) as [_ [_ [Hr _]]].
+    destruct Hm as [Hm|[HR [d2 [E2 [O2 ->]]]]].
+    + apply pawn_to_in in Hm. destruct Hm as [Hsrc [_ Hp]]. split; [exact Hsrc|]. congruence.
+    + split; [reflexivity|]. rewrite (Hdbl HR). reflexivity.
+  - destruct (caps_facts c s x Hs Hx) as [_ [_ [Hr H6]]].
+    destruct Hm as [[En Hm]|[En [Hx' ->]]].
+    + apply pawn_to_in in Hm. destruct Hm as [Hsrc [_ Hp]]. split; [exact Hsrc|]. congruence.
+    + split; [reflexivity|]. rewrite (H6 (Hep x Hx')). reflexivity.
+Qed.
+
+Theorem pseudo_from_promo p s m : s < 64 ->
+  (forall e, ep p = Some e -> rank_of e = sixth_rank (turn p)) ->
+  In m (pseudo_from p s) ->
+  match at_ p (src m) with
+  | Some (Pawn,_) => is_promo m = (sq_rank (src m) =? seventh_rk (turn p))
+  | _ => promo m = None end.
+Proof.
+  intros Hs Hep. unfold pseudo_from.
+  destruct (at_ p s) as [[t c']|] eqn:Hat; [|intros []].
+  destruct (color_eqb (turn p) c'); [|intros []].
+  assert (Hmv : forall L, In m (map (mv s) L) -> src m = s /\ promo m = None).
+  { intros L H. apply in_map_iff in H. destruct H as [x [<- _]]. split; reflexivity. }
+  destruct t.
+  - intro Hm. destruct (pawn_moves_promo p (turn p) s m Hs Hep Hm) as [-> Hp]. rewrite Hat. exact Hp.
+  - intro Hm. destruct (Hmv _ Hm) as [-> Hp]. rewrite Hat. exact Hp.
+  - intro Hm. destruct (Hmv _ Hm) as [-> Hp]. rewrite Hat. exact Hp.
+  - intro Hm. destruct (Hmv _ Hm) as [-> Hp]. rewrite Hat. exact Hp.
+  - intro Hm. destruct (Hmv _ Hm) as [-> Hp]. rewrite Hat. exact Hp.
+  - intro Hm. apply in_app_or in Hm. destruct Hm as [Hm|Hm].
+    + destruct (Hmv _ Hm) as [-> Hp]. rewrite Hat. exact Hp.
+    + destruct (N.eqb_spec s (home_rank (turn p) * 8 + 4)) as [He|]; [|destruct Hm].
+      destruct (castle_moves_shape p (turn p) m Hm) as [_ [-> | ->]];
+        cbn [mv src promo]; rewrite <- He, Hat; reflexivity.
+Qed.
+
+Theorem pseudo_promo p m :
+  (forall e, ep p = Some e -> rank_of e = sixth_rank (turn p)) ->
+  In m (pseudo p) ->
+  match at_ p (src m) with
+  | Some (Pawn,_) => is_promo m = (sq_rank (src m) =? seventh_rk (turn p))
+  | _ => promo m = None end.
+Proof.
+  intros Hep Hm. unfold pseudo in Hm. apply in_flat_map in Hm. destruct Hm as [s [Hs Hm]].
+  apply in_all_sq in Hs. exact (pseudo_from_promo p s m Hs Hep Hm).
+Qed.
+
+(** ** 5. what [pos_valid] contributes *)
+Lemma back_ranks_sweep :
+  forallb (fun s => Bool.eqb (mem s [0;1;2;3;4;5;6;7;56;57;58;59;60;61;62;63]) ((s <? 8) || (56 <=? s)))
+          all_sq = true.
+Proof. vm_cast_no_check (eq_refl true). Qed.
+
+Theorem valid_facts p : pos_valid p = true ->
+  (forall s c, s < 64 -> has p s Pawn c = true -> 8 <= s < 56) /\
+  (forall e, ep p = Some e -> occ p e = false /\ rank_of e = sixth_rank (turn p)).
+Proof.
+  unfold pos_valid. intro H.
+  apply andb_prop in H. destruct H as [H Hepok].
+  do 5 (apply andb_prop in H; destruct H as [H _]).
+  apply andb_prop in H. destruct H as [_ Hpawn].
+  split.
+  - intros s c Hs Hhas.
+    destruct (mem s [0;1;2;3;4;5;6;7;56;57;58;59;60;61;62;63]) eqn:Hmem.
+    + exfalso. unfold mem in Hmem. apply existsb_exists in Hmem. destruct Hmem as [x [Hx Hex]].
+      apply N.eqb_eq in Hex. subst x. rewrite forallb_forall in Hpawn. specialize (Hpawn s Hx).
+      rewrite negb_true_iff, orb_false_iff in Hpawn. destruct c; destruct Hpawn; congruence.
+    + pose proof (sweep64 _ back_ranks_sweep s Hs) as Hb. cbv beta in Hb. apply beqb_eq in Hb.
+      rewrite Hmem in Hb. lia.
+  - intros e He. unfold ep_ok in Hepok. rewrite He in Hepok.
+    apply andb_prop in Hepok. destruct Hepok as [Hepok Hrest].
+    apply andb_prop in Hepok. destruct Hepok as [_ Hrank]. apply N.eqb_eq in Hrank.
+    split; [|exact Hrank].
+    destruct (step e (0, - fwdc (turn p))%Z); [|discriminate Hrest].
+    destruct (step e (0, fwdc (turn p))%Z); [|discriminate Hrest].
+    repeat (apply andb_prop in Hrest; destruct Hrest as [Hrest ?]).
+    match goal with Hx : negb (occ p e) = true |- _ => rewrite negb_true_iff in Hx; exact Hx end.
+Qed.
